@@ -51,12 +51,41 @@ theorem ufuncInput_cells (n : List Nat) (v : Val) (cv : List Nat → List GQ) (v
     intro i _
     rw [hv.1 i, ufuncInput_raw od a k h i]
 
+/-- the validity a binary ufunc hands to the constructor -/
+theorem ufuncValid_cells (n : List Nat) (self : CF) (l r : Val) (cl cr : List Nat → List GQ)
+    (vl vr : List Nat → Bool) (hl : ValCells n l cl vl) (hr : ValCells n r cr vr)
+    (hs : firstFld l r = some self) :
+    (ufuncValid self l r).shape = n ∧
+      ∀ i, inRange n i = true → (ufuncValid self l r).get i = (vl i && vr i) := by
+  cases l with
+  | fld f =>
+    have hf : Cells n f cl vl := hl
+    cases r with
+    | fld o =>
+      have ho : Cells n o cr vr := hr
+      refine ⟨by show f.valid.shape = n; rw [hf.1.2.1, hf.2.1], fun i hi => ?_⟩
+      show (f.valid.get i && o.valid.get i) = _
+      rw [(hf.2.2 i hi).2, (ho.2.2 i hi).2]
+    | raw od =>
+      refine ⟨by show f.valid.shape = n; rw [hf.1.2.1, hf.2.1], fun i hi => ?_⟩
+      show f.valid.get i = _
+      rw [(hf.2.2 i hi).2, hr.2 i]; simp
+  | raw od =>
+    cases r with
+    | fld o =>
+      have ho : Cells n o cr vr := hr
+      refine ⟨by show o.valid.shape = n; rw [ho.1.2.1, ho.2.1], fun i hi => ?_⟩
+      show o.valid.get i = _
+      rw [(ho.2.2 i hi).2, hl.2 i]; simp
+    | raw od2 => simp [firstFld] at hs
+
 theorem ufunc2_cells (fn : GQ → GQ → GQ) (pw : Bool) (n : List Nat) (l r : Val) (g : CF)
     (cl cr : List Nat → List GQ) (vl vr : List Nat → Bool)
     (hl : ValCells n l cl vl) (hr : ValCells n r cr vr)
     (h : ufunc2 fn pw l r = .ok g) :
-    Cells n g (fun i => bz fn (cl i) (cr i)) (fun _ => true) ∧
-      ∃ self, firstFld l r = some self ∧ g.mesh = self.mesh := by
+    Cells n g (fun i => bz fn (cl i) (cr i)) (fun i => vl i && vr i) ∧
+      (∃ self, firstFld l r = some self ∧ g.mesh = self.mesh) ∧
+      ∀ i, inRange n i = true → Compat (cl i).length (cr i).length := by
   unfold ufunc2 at h
   cases hff : firstFld l r with
   | none => simp [hff] at h
@@ -72,34 +101,48 @@ theorem ufunc2_cells (fn : GQ → GQ → GQ) (pw : Bool) (n : List Nat) (l r : V
       | ok q =>
         obtain ⟨b, kb⟩ := q
         simp only [hb] at h
-        split at h
-        · cases h
-        · cases hnb : npBin fn a b with
-          | error e => simp [hnb] at h
-          | ok res =>
-            simp only [hnb] at h
-            obtain ⟨_, hmk⟩ := ufuncWrap_ok _ _ _ _ h
-            -- `self` is one of the two inputs: its array has rank above the mesh's
-            have hself : self.mesh.n = n ∧
-                (self.mesh.n.length < a.shape.length ∨ self.mesh.n.length < b.shape.length) := by
-              rcases firstFld_some l r self hff with hl' | hr'
-              · subst hl'
-                have hf : Cells n self cl vl := hl
-                rw [ufuncInput_fld self a ka ha]
-                exact ⟨hf.2.1, Or.inl hf.rank⟩
-              · subst hr'
-                have hf : Cells n self cr vr := hr
-                rw [ufuncInput_fld self b kb hb]
-                exact ⟨hf.2.1, Or.inr hf.rank⟩
-            obtain ⟨hsn, hrank⟩ := hself
-            obtain ⟨hm, hwf, _, _, _, hvalid, hcell⟩ :=
-              npBin_cells fn self.mesh a b res hrank hnb _ _ none _ _ g (by intro v hv; cases hv) hmk
-            refine ⟨⟨hwf, by rw [hm]; exact hsn, ?_⟩, self, rfl, hm⟩
-            intro i hi
-            have hi' : inRange self.mesh.n i = true := by rw [hsn]; exact hi
-            refine ⟨?_, by rw [hvalid i hi']; rfl⟩
-            show cellOf g.data i g.nvdim = bz fn (cl i) (cr i)
-            rw [hcell i hi', ufuncInput_cells n l cl vl hl a ka ha i hi, ufuncInput_cells n r cr vr hr b kb hb i hi]
+        cases hm1 : ufuncMeshOk self l with
+        | error e => simp [hm1] at h
+        | ok u1 =>
+          simp only [hm1] at h
+          cases hm2 : ufuncMeshOk self r with
+          | error e => simp [hm2] at h
+          | ok u2 =>
+            simp only [hm2] at h
+            split at h
+            · cases h
+            · cases hnb : npBin fn a b with
+              | error e => simp [hnb] at h
+              | ok res =>
+                simp only [hnb] at h
+                obtain ⟨_, hmk⟩ := ufuncWrap_ok _ _ _ _ _ h
+                have hself : self.mesh.n = n ∧
+                    (self.mesh.n.length < a.shape.length ∨ self.mesh.n.length < b.shape.length) := by
+                  rcases firstFld_some l r self hff with hl' | hr'
+                  · subst hl'
+                    have hf : Cells n self cl vl := hl
+                    rw [ufuncInput_fld self a ka ha]
+                    exact ⟨hf.2.1, Or.inl hf.rank⟩
+                  · subst hr'
+                    have hf : Cells n self cr vr := hr
+                    rw [ufuncInput_fld self b kb hb]
+                    exact ⟨hf.2.1, Or.inr hf.rank⟩
+                obtain ⟨hsn, hrank⟩ := hself
+                obtain ⟨hvsh, hvget⟩ := ufuncValid_cells n self l r cl cr vl vr hl hr hff
+                obtain ⟨hm, hwf, _, _, hbd, hvalid, hcell⟩ :=
+                  npBin_cells fn self.mesh a b res hrank hnb _ _ (some (ufuncValid self l r)) _ _ g
+                    (by intro v hv; injection hv with hv; subst hv; rw [hvsh, hsn]) hmk
+                refine ⟨⟨hwf, by rw [hm]; exact hsn, ?_⟩, ⟨self, rfl, hm⟩, ?_⟩
+                · intro i hi
+                  have hi' : inRange self.mesh.n i = true := by rw [hsn]; exact hi
+                  refine ⟨?_, by rw [hvalid i hi']; exact hvget i hi⟩
+                  show cellOf g.data i g.nvdim = bz fn (cl i) (cr i)
+                  rw [hcell i hi', ufuncInput_cells n l cl vl hl a ka ha i hi,
+                    ufuncInput_cells n r cr vr hr b kb hb i hi]
+                · intro i hi
+                  rw [← ufuncInput_cells n l cl vl hl a ka ha i hi, ← ufuncInput_cells n r cr vr hr b kb hb i hi,
+                    opdCell_length, opdCell_length]
+                  exact compat_of_bdim _ _ _ hbd
 
 /-! ## sums -/
 
